@@ -45,6 +45,10 @@ type zvC22Case struct {
 	// PriorRole >= 0: an earlier session of the same peer was established with this role capability and torn down
 	// (start from a non-initial state: per-session negotiation state must not leak into the next session)
 	PriorRole int `json:"prior_session_role"`
+	// PriorCaps: an earlier session of the same peer was established with an OPEN advertising the 4-octet AS capability,
+	// add-path in both directions and the multiprotocol capabilities, and torn down: what was negotiated then must not
+	// be in force in the session this case's OPEN negotiates
+	PriorCaps bool `json:"prior_session_all_capabilities,omitempty"`
 }
 
 const zvBigAS = 4200000009
@@ -283,9 +287,15 @@ func zvC22Run(c zvC22Case) zvC22Result {
 		if conn == nil {
 			panic("no connection dialled")
 		}
-		if c.PriorRole >= 0 {
+		if c.PriorRole >= 0 || c.PriorCaps {
 			first := c
-			first.R = zvC22Remote{Version: 4, AS2: "cfg", Cap4: "cfg", ID: "other", Hold: 90, Roles: []byte{byte(c.PriorRole)}}
+			first.R = zvC22Remote{Version: 4, AS2: "cfg", Cap4: "cfg", ID: "other", Hold: 90}
+			if c.PriorRole >= 0 {
+				first.R.Roles = []byte{byte(c.PriorRole)}
+			}
+			if c.PriorCaps {
+				first.R.AP, first.R.MP = 3, 3
+			}
 			if c.L.BigAS {
 				first.R.AS2 = "trans"
 			}
@@ -428,7 +438,7 @@ func TestVerifC22(t *testing.T) {
 	defer r.Finish()
 	r.Rule("cross product of the peer's OPEN (version x 2-octet AS {configured, other, AS_TRANS} x 4-octet capability {absent, configured, other} x identifier {0, ours, other} x hold time {0,1,2,3,4,90,65535} " +
 		"x add-path {none,recv,send,both} x multiprotocol capabilities {none, IPv4, IPv6, both} (against local configurations with IPv6 / IPv4-multiprotocol) x role capabilities x capability packaging {one Capabilities parameter, one parameter per capability in either order}) with local configurations (iBGP/eBGP, 2-/4-octet peer AS, hold 3/90, add-path recv/send, role/strict); every case runs the real FSM from OpenSent under the virtual runtime; " +
-		"non-trivial = cases in which the session was established and the negotiated values were compared")
+		"every admitted OPEN of the role-less local configurations also as the second session of a peer whose first session negotiated all capabilities; non-trivial = cases in which the session was established and the negotiated values were compared")
 	r.Require("mp4_on", "mp6_on", "second_session_cases", "ref_rejects", "established", "addpath_rx_on", "addpath_tx_on", "asn4_on", "ref_rejects:hold time", "ref_rejects:peer AS", "ref_rejects:role pair")
 	if r.IsReplay() {
 		var c zvC22Case
@@ -451,11 +461,34 @@ func TestVerifC22(t *testing.T) {
 				r.Cap("time budget")
 				return
 			}
-			c := zvC22Case{l, rem, -1}
+			c := zvC22Case{L: l, R: rem, PriorRole: -1}
 			zvC22Check(r, c)
 			if idx == 1000 {
 				r.Sample(c)
 			}
+		}
+	}
+	// second sessions of a peer whose first session negotiated every capability: each admitted OPEN of locals without
+	// roles (roles have their own second-session cases below), negotiated again from that non-initial state
+	for _, l := range zvC22Locals(r.Thorough()) {
+		if l.Role != PeerConfigRoleOff {
+			continue
+		}
+		for _, rem := range zvC22Remotes(l, r.Thorough()) {
+			idx++
+			if !r.Mine(idx) {
+				continue
+			}
+			c := zvC22Case{L: l, R: rem, PriorRole: -1, PriorCaps: true}
+			if admit, demanded, _ := zvC22Ref(c); !admit || !demanded {
+				continue
+			}
+			if idx%64 == 0 && r.OutOfBudget() {
+				r.Cap("time budget")
+				return
+			}
+			r.Count("second_session_after_full_capabilities", 1)
+			zvC22Check(r, c)
 		}
 	}
 	// second sessions of a peer whose first session negotiated a role
@@ -473,7 +506,7 @@ func TestVerifC22(t *testing.T) {
 			if l.BigAS {
 				rem.AS2 = "trans"
 			}
-			zvC22Check(r, zvC22Case{l, rem, int(compat[l.Role])})
+			zvC22Check(r, zvC22Case{L: l, R: rem, PriorRole: int(compat[l.Role])})
 		}
 	}
 }
